@@ -360,4 +360,36 @@ theorem C19_dedup (E : Env) (folder : Str) (ms : List Member) (l : List (Str × 
     · cases h
     · exact h
 
+/-- **A chain object has no memory.** In any history of mutations (`add_sys` with either priority,
+`systems.pop(i)`) and queries on one chain object, each operation's result is what that operation
+returns on the member list as it is at that moment — nothing earlier queries returned matters. -/
+theorem C19_history (E : Env) (ms : List Member) (pre : List Op) (op : Op) (post : List Op) :
+    (runHist E ms (pre ++ op :: post))[pre.length]? = some (observe E (pre.foldl applyOp ms) op) := by
+  induction pre generalizing ms with
+  | nil => simp [runHist]
+  | cons o pre ih =>
+    simp only [List.cons_append, runHist, List.length_cons, List.getElem?_cons_succ, List.foldl_cons]
+    exact ih (applyOp ms o)
+
+/-- No stale misses: a name that no member had is found as soon as a member that has it is
+appended (`priority=False`), with that member's content. -/
+theorem C19_history_append (E : Env) (name : Str) (ms : List Member) (m : Member) (p : Str) (i : Nat)
+    (hmiss : chainLookup E name ms = .error .notFound)
+    (hm : lookup E m.b (replaceBS (join2 m.pfx name)) = .ok (p, i)) :
+    chainLookup E name (applyOp ms (.add m false)) = .ok (replaceBS (join2 m.pfx name), i) := by
+  have hall : ∀ m' ∈ ms, lookup E m'.b (replaceBS (join2 m'.pfx name)) = .error .notFound := by
+    induction ms with
+    | nil => intro m' h; cases h
+    | cons x r ih =>
+      rw [chainLookup] at hmiss
+      split at hmiss
+      · cases hmiss
+      · rename_i hx
+        intro m' hm'
+        rcases List.mem_cons.mp hm' with rfl | hm'
+        · exact hx
+        · exact ih hmiss m' hm'
+      · cases hmiss
+  simpa [applyOp, addSys] using C19_chain_first E name ms m [] p i hall hm
+
 end C19
